@@ -12,11 +12,12 @@ EXPLANATION = (
 )
 RULE = "one case = one (typestate, client call, oracle resolution) transition; distinct = reachable typestates"
 EXHAUSTIVE = True
-OWNED = {"C13.M1", "C13.M2", "C13.M3", "C04.M4", "C03.M1", "C04.M1", "C04.M2", "C04.M3", "CRASH"}
+OWNED = {"C13.M1", "C13.M2", "C13.M3", "C04.M4", "C03.M1", "C04.M1", "C04.M2", "C04.M3", "CRASH", "ISO"}
 RENAME = {"C04.M4": "C13.M4", "C03.M1": "C13.M4b", "C04.M1": "C13.M5", "C04.M2": "C13.M6", "C04.M3": "C13.M7"}
 
 
 def check(ctx):
+    ctx.rule("ISO", "calls on one instance never change the heap reachable from another instance of the same class")
     ctx.assume("python", "clock", "client")
     ctx.rule("C13.M1", "armed on_iteration == engage(); execute(): exactly 1 + #next_state_now state functions run")
     ctx.rule("C13.M2", "no state function in an iteration that begins after the machine finished / before on_enable()")
